@@ -180,7 +180,7 @@ type FuncCall struct {
 	Name     string
 	Params   []Expr // parametric aggregate parameters; nil when not parametric
 	Args     []Expr
-	Distinct bool // count(DISTINCT x)
+	Distinct bool   // count(DISTINCT x)
 	Operator string // the operator spelling when the call came from an operator ("" otherwise)
 }
 
@@ -336,12 +336,14 @@ func (f *FuncCall) String() string {
 func (l *Lambda) String() string {
 	return "(" + strings.Join(l.Params, ", ") + ") -> " + l.Body.String() + aliasSuffix(l.As)
 }
-func (s *Subquery) String() string  { return "(subquery)" + aliasSuffix(s.As) }
-func (t *TupleLit) String() string  { return "tuple(" + exprList(t.Elems) + ")" + aliasSuffix(t.As) }
-func (a *ArrayLit) String() string  { return "[" + exprList(a.Elems) + "]" + aliasSuffix(a.As) }
-func (c *CastExpr) String() string  { return "CAST(" + c.Expr.String() + ", " + quoteString(c.Type) + ")" + aliasSuffix(c.As) }
-func (p *Param) String() string     { return p.Text + aliasSuffix(p.As) }
-func (c *CaseExpr) String() string  { return "CASE..." + aliasSuffix(c.As) }
+func (s *Subquery) String() string { return "(subquery)" + aliasSuffix(s.As) }
+func (t *TupleLit) String() string { return "tuple(" + exprList(t.Elems) + ")" + aliasSuffix(t.As) }
+func (a *ArrayLit) String() string { return "[" + exprList(a.Elems) + "]" + aliasSuffix(a.As) }
+func (c *CastExpr) String() string {
+	return "CAST(" + c.Expr.String() + ", " + quoteString(c.Type) + ")" + aliasSuffix(c.As)
+}
+func (p *Param) String() string    { return p.Text + aliasSuffix(p.As) }
+func (c *CaseExpr) String() string { return "CASE..." + aliasSuffix(c.As) }
 func (i *IntervalExpr) String() string {
 	return "INTERVAL " + i.Value.String() + " " + i.Unit + aliasSuffix(i.As)
 }
